@@ -125,6 +125,32 @@ type c05Hostile struct {
 	AllFlips  bool     `json:"all_flips"`  // additionally try every single-bit flip
 	LeadOnes  int      `json:"lead_ones"`  // prepend this many '1' characters
 	TrailJunk string   `json:"trail_junk"` // appended characters
+	AliasPos  int      `json:"alias_pos"`  // -1 none; else replace the character at this position (mod length) ...
+	AliasKind int      `json:"alias_kind"` // ... by a same-low-byte rune (0: U+01xx, 1: U+02xx, 2: U+FFxx) or the byte with bit 5/6/7 flipped (3,4,5)
+}
+
+func applyAlias(s string, pos, kind int) string {
+	if pos < 0 || len(s) == 0 {
+		return s
+	}
+	i := pos % len(s)
+	c := s[i]
+	var rep string
+	switch kind % 6 {
+	case 0:
+		rep = string(rune(0x100 + int(c)))
+	case 1:
+		rep = string(rune(0x200 + int(c)))
+	case 2:
+		rep = string(rune(0xff00 + int(c)))
+	case 3:
+		rep = string([]byte{c ^ 0x20})
+	case 4:
+		rep = string([]byte{c ^ 0x40})
+	default:
+		rep = string([]byte{c | 0x80})
+	}
+	return s[:i] + rep + s[i+1:]
 }
 
 func c05Judge(s string, o *Obs) error {
@@ -184,6 +210,10 @@ func evalC05Hostile(c c05Hostile, o *Obs) error {
 		o.Class("C05:leading-ones")
 	}
 	s += c.TrailJunk
+	if c.AliasPos >= 0 {
+		s = applyAlias(s, c.AliasPos, c.AliasKind)
+		o.Class("C05:character-alias")
+	}
 	if err := c05Judge(s, o); err != nil {
 		return err
 	}
@@ -259,7 +289,7 @@ func genKeyData(t *rapid.T) []byte {
 }
 
 func genC05Hostile(t *rapid.T) c05Hostile {
-	c := c05Hostile{FlipBit: -1, Recompute: true}
+	c := c05Hostile{FlipBit: -1, Recompute: true, AliasPos: -1}
 	p := make([]byte, 0, 78)
 	if rapid.Bool().Draw(t, "knownver") {
 		n := nets[genNet(t)].Params
@@ -296,6 +326,9 @@ func genC05Hostile(t *rapid.T) c05Hostile {
 		c.TrailJunk = rapid.SampledFrom([]string{"1", "0", "O", "I", "l", " ", "z", "\x00"}).Draw(t, "junk")
 	case 5:
 		c.AllFlips = rapid.IntRange(0, 5).Draw(t, "allflips") == 0
+	case 6:
+		c.AliasPos = rapid.IntRange(0, 120).Draw(t, "alias_pos")
+		c.AliasKind = rapid.IntRange(0, 5).Draw(t, "alias_kind")
 	}
 	c.Payload = p
 	return c
@@ -336,12 +369,12 @@ func TestC05(t *testing.T) {
 		if len(ev.harnessErrors) > 0 {
 			return
 		}
-		kC05RT.Run(t, ev, perShard(pick(1200, 120000)))
-		kC05Hostile.Run(t, ev, perShard(pick(4000, 400000)))
-		kC05Str.Run(t, ev, perShard(pick(1000, 100000)))
+		kC05RT.Run(t, ev, perShard(pick(1200, 200000)))
+		kC05Hostile.Run(t, ev, perShard(pick(4000, 2000000)))
+		kC05Str.Run(t, ev, perShard(pick(1000, 500000)))
 		ev.requireClasses("C05:accepted", "C05:rejected:ref: scalar out of range", "C05:rejected:ref: point not on curve",
 			"C05:rejected:ref: key data prefix", "C05:rejected:ref: checksum", "C05:rejected:ref: length",
 			"C05:all-single-bit-flips", "C05:leading-ones", "C05:rt-public", "C05:rt-private",
-			"C05:rt-scalar-with-leading-zero-byte", "C05:rt-scalar-with-two-leading-zero-bytes")
+			"C05:rt-scalar-with-leading-zero-byte", "C05:rt-scalar-with-two-leading-zero-bytes", "C05:character-alias")
 	})
 }
